@@ -130,6 +130,18 @@ impl Property for C01 {
         ]
     }
 
+    fn extra(&self, tier: Tier, seed: u64) -> ExtraResult<PkgCase> {
+        let mut r = ExtraResult::default();
+        if tier != Tier::Thorough {
+            return r;
+        }
+        let seeds: Vec<Vec<u8>> = pool().iter().filter(|p| p.bytes.len() < 40_000).map(|p| p.bytes.clone()).collect();
+        let c = fuzz::run(&fuzz::Campaign { target: "fz_read", runs: 250_000, jobs: 8, max_len: 65536, seeds }, seed);
+        r.fields = c.fields;
+        r.inconclusive = c.inconclusive;
+        r.cases = c.artifacts.into_iter().map(PkgCase::Bytes).collect();
+        r
+    }
     fn check(&self, case: &PkgCase) -> Outcome {
         let mut o = Outcome::new();
         let x = case.bytes();
